@@ -473,6 +473,13 @@ def c19_build(ctx):
     # called with the default value, the two ways of handing over segments
     for a, b in itertools.product(NEAR_BUILT_MEDIA, repeat=2):
         cases.append(mk("cmp_build_media", a, C.hx(b), group="near:built-media", meta={"a": a, "b": b}))
+    # a playlist with an empty slot in its public `segments` (a segment taken out after building) against the same segments moved
+    # together: equal only if the segments sit in the same slots
+    hx = lambda t: t.encode().hex()
+    for n in range(1, 6):
+        script = "\n".join(["td 10000000000"] + ["push dur=1000000000 uri=" + hx("s%d" % j) for j in range(n)])
+        for i in range(n + 1):
+            cases.append(mk("cmp_holes", script, str(i), group="holes", meta={"holes": True}))
     return cases
 
 
@@ -497,6 +504,13 @@ def c19_oracle(ctx, cases, impl, model):
                     return o[i:-1]
         return o
     for c, a in zip(cases, impl):
+        if c.meta.get("holes"):
+            r = C.Resp(a)
+            if r.status == "panic":
+                fails.append(dict(describe(c.line, a), what="comparison panicked in group holes"))
+            elif r.status == "ok" and r.get("E") == "1" and r.get("X") != "1":
+                fails.append(dict(describe(c.line, a), what="holes: no-false-equality: two playlists whose segments sit in different slots of `segments` compare equal", law="no-false-equality"))
+            continue
         by_group.setdefault(c.group, []).append((c, a, False))
         if c.op == "cmp_build_media":     # the same pairs once more, as lists of segments (X/Y/Z = their ==, cmp, hash)
             by_group.setdefault(c.group + ":segments", []).append((c, a, True))
@@ -1545,6 +1559,18 @@ def c08_build(ctx):
             cases.append(mk("rt_media", t, group="corpus"))
     for _ in range(ctx.n(500, 5000)):
         cases.append(mk("rt_media", G.gen_media(rng, features=ctx.features)[0], group="generated"))
+    # the builder path, segments with and without explicit numbers (equal to their slot): the same resolution as for the text
+    for combo in itertools.product([(u, k) for u in ("a.ts", "b.ts") for k in "NEI"], repeat=3):
+        segs = [(u, k, 10 * (i + 1), 100 * (i + 1), None) for i, (u, k) in enumerate(combo)]
+        for mask in (0, 0b111, 0b010, 0b110, 0b101):
+            calls = ["td 10000000000"]
+            for i, (u, k, n, o, _) in enumerate(segs):
+                t = "push dur=1000000000 uri=%s" % C.hx(u)
+                if mask >> i & 1: t += " num=%d" % i
+                if k == "E": t += " br=%d@%d" % (n, o)
+                elif k == "I": t += " br=%d" % n
+                calls.append(t)
+            cases.append(mk("build_media", "\n".join(calls), group="builder-explicit-numbers", meta={"segs": segs}))
     # a MAP with a byte range of the SAME file in front of every kind of segment range
     for combo in itertools.product([(u, k) for u in ("a.ts", "b.ts") for k in "NEI"], repeat=3):
         for mpos in range(3):
@@ -1812,6 +1838,17 @@ def c15_build(ctx):
                 text = "#EXTM3U" + sep + "".join(l + "\n" for _, l in combo)
                 for op in ("media", "master"):
                     cases.append(mk(op, text, group="on-the-header-line", meta={"kinds": kinds, "header": True}))
+    # something in front of the header: `#EXTM3U` has to be the first line (blank space before it aside)
+    body_master = '#EXT-X-STREAM-INF:BANDWIDTH=1\nv.m3u8\n'
+    body_media = "#EXT-X-TARGETDURATION:10\n#EXTINF:1,\ns.ts\n"
+    for _, l in C15_LINES:
+        for body in ("", body_master, body_media):
+            for op in ("media", "master"):
+                cases.append(mk(op, l + "\n#EXTM3U\n" + body, group="header-not-first", meta={"foreign": "line in front of #EXTM3U"}))
+                cases.append(mk(op, l + " #EXTM3U\n" + body, group="header-not-first", meta={"foreign": "text in front of #EXTM3U on its line"}))
+    for pre in ("\n", "  ", "\t\n \n", "\r\n"):          # control: blank space in front is trimmed away (status must agree with the model)
+        for op, body in (("media", body_media), ("master", body_master)):
+            cases.append(mk(op, pre + "#EXTM3U\n" + body, group="blank-before-header"))
     # headerless variants of the short ones
     for n in range(0, 3):
         for combo in itertools.product(C15_LINES, repeat=n):
@@ -2317,6 +2354,11 @@ def timing_inputs(n, kind):
             "".join('#EXT-X-STREAM-INF:BANDWIDTH=%d,AUDIO="g%d"\nv%d.m3u8\n' % (i + 1, n - 1 - i, i) for i in range(n))
     elif kind == "master-session-data":
         return "#EXTM3U\n" + "".join('#EXT-X-SESSION-DATA:DATA-ID="d%d",VALUE="v"\n' % i for i in range(n * 2))
+    elif kind == "blank-lines":
+        # one uninterrupted run of lines that carry nothing (a skip by recursion instead of a loop costs stack per line)
+        body = "".join(("\n", " \n", "\r\n", "\t\n")[i % 4] for i in range(n * 100)) + "#EXTINF:1,\ns.ts\n" + "# c\n" * (n * 25)
+    elif kind == "master-blank-lines":
+        return "#EXTM3U\n" + "".join(("\n", " \n", "\r\n")[i % 3] for i in range(n * 100)) + "#EXT-X-STREAM-INF:BANDWIDTH=1\n" + " \n" * (n * 50) + "v.m3u8\n"
     elif kind == "master-codecs":
         # ONE attribute value with many entries (a list type inside a tag)
         cod = ",".join("c%d.%d" % (i % 7, i) for i in range(n * 4))
@@ -2363,9 +2405,11 @@ def c05_timing(ctx):
              ("master-groups", "quadratic"), ("master-session-data", "linear"),
              ("byte-ranges", "linear"), ("date-ranges", "linear"), ("unknown-tags", "linear"), ("discontinuities", "linear"),
              ("master-session-keys", "linear"), ("master-iframes", "linear"),
-             ("master-codecs", "linear"), ("master-long-strings", "linear"), ("long-strings", "linear"))
+             ("master-codecs", "linear"), ("master-long-strings", "linear"), ("long-strings", "linear"),
+             ("blank-lines", "linear"), ("master-blank-lines", "linear"))
     limits = {"linear": 5.5, "quadratic": 24.0}          # 4x the input: 4x / 16x the work, with slack; 8x / 64x would be the next power
     startup = _instructions(C.req("time", timing_inputs(1, "bounded-keys"), "rt_media"))
+    dead = []
 
     def one(kind, n):
         text = timing_inputs(n, kind)
@@ -2376,6 +2420,9 @@ def c05_timing(ctx):
             t = int(o.split(" ")[1]) if o.startswith("ok ") else None
             if t is not None:
                 us = t if us is None else min(us, t)
+            elif o.split(" ")[0] in ("abort", "timeout", "panic"):
+                dead.append("%s with n = %d (%d bytes): the process answered `%s` (stack overflow / abort / no answer)" % (kind, n, len(text), o.split(" ")[0]))
+                break
         ins = _instructions(line) if startup is not None else None
         return (n, len(text), us, None if ins is None else max(ins - startup, 1))
     jobs = [(k, n * (4 if g == "linear" else 1)) for k, g in kinds for n in (base, base * 2, base * 4)]
@@ -2384,6 +2431,7 @@ def c05_timing(ctx):
             res = list(ex.map(lambda kn: one(*kn), jobs))
     else:
         res = [one(*kn) for kn in jobs]                            # one at a time: the measurements must not disturb each other
+    viol += dead
     for idx, (kind, growth) in enumerate(kinds):
         ts = res[idx * 3: idx * 3 + 3]
         out[kind] = [{"n": n, "bytes": b, "microseconds": t, "instructions": i} for n, b, t, i in ts]
@@ -3273,6 +3321,12 @@ def c10_build(ctx):
             segs.append(s)
         script = "td 10000000000\n" + ("ifo 1\n" if rng.random() < 0.2 else "") + "\n".join(segs)
         cases.append(mk("build_media", script.rstrip("\n"), group="built"))
+    # renditions made with ExtXMedia::new and then changed through their PUBLIC FIELDS (no builder validation in between): whatever
+    # the writer prints for them has to be covered by the version
+    for ty, ins, st in itertools.product(["AUDIO", "VIDEO", "SUBTITLES", "CLOSED-CAPTIONS"], [None, "CC1", "SERVICE1", "SERVICE63"], [None, "VIDEO", "CLOSED-CAPTIONS"]):
+        item = "type=%s+group=%s+name=%s" % (ty, C.hx("g"), C.hx("n")) + ("+instream=" + ins if ins else "") + ("+settype=" + st if st else "")
+        for extra in ("", "\nskeys " + C.hx('#EXT-X-SESSION-KEY:METHOD=AES-128,URI="k",IV=0x000102030405060708090a0b0c0d0e0f')):
+            cases.append(mk("build_master", "mediaf " + item + extra, group="public-field-renditions"))
     # key LISTS of built segments (whatever is written has to be covered by the version): several keys, the NONE marker in front
     # of, behind and between real keys, each version-relevant attribute on each position
     kk = {"plain": "key=aes:%s:-:-:-" % C.hx("k"), "iv": "key=aes:%s:000102030405060708090a0b0c0d0e0f:-:-" % C.hx("k"), "fmt": "key=saes:%s:-:%s:-" % (C.hx("k"), C.hx("f")),
